@@ -205,10 +205,14 @@ pub fn c10(ctx: &Ctx) -> PropResult {
     for src in crate::props6::long_operand_family() {
         cases.push(run_case(src, "long-operands"));
     }
+    // (appended) texts of 255 .. 1100 bytes through the text procedures with empty, short and long patterns
+    for src in crate::props6::long_text_family() {
+        cases.push(run_case(src, "long-texts"));
+    }
     let stats = run_cases(&ctx.driver, cases, &no_panic_oracle, &no_known, ctx.threads);
     PropResult {
         stats,
-        rule: format!("registry-driven sweep: every procedure of CORE, MATH, STRING, MAP, IO, STYLE, TIME found in the live registry (except INPUT*/RANDOM/TIME, see C12/C15) applied to argument tuples over {} exemplars per position (all tuples when they fit the budget, otherwise every exemplar at every position plus random tuples); every statement form applied to every exemplar; random stateful programs calling library procedures; in-process under catch_unwind with a statement budget; non-trivial = ended normally or with a runtime error; the same call site run twice with the name re-bound in between (user procedure with fewer parameters / IMPORT of the library module, both orders); library procedures that build lists called twice with the first result changed in between; 64 texts that are fragments of number syntax through the text procedures; the type of every result (r == \"\" + r, LENGTH(r)) besides its text; ill-typed operations on long texts with multi-byte characters at every offset", EXEMPLARS.len()),
+        rule: format!("registry-driven sweep: every procedure of CORE, MATH, STRING, MAP, IO, STYLE, TIME found in the live registry (except INPUT*/RANDOM/TIME, see C12/C15) applied to argument tuples over {} exemplars per position (all tuples when they fit the budget, otherwise every exemplar at every position plus random tuples); every statement form applied to every exemplar; random stateful programs calling library procedures; in-process under catch_unwind with a statement budget; non-trivial = ended normally or with a runtime error; the same call site run twice with the name re-bound in between (user procedure with fewer parameters / IMPORT of the library module, both orders); library procedures that build lists called twice with the first result changed in between; 64 texts that are fragments of number syntax through the text procedures; the type of every result (r == \"\" + r, LENGTH(r)) besides its text; ill-typed operations on long texts with multi-byte characters at every offset; texts of 255 .. 1100 bytes with empty, short and long patterns", EXEMPLARS.len()),
         exhaustive: false,
         notes: vec![],
     }
@@ -406,10 +410,16 @@ pub fn c14(ctx: &Ctx) -> PropResult {
     for src in crate::props6::for_each_line_structure() {
         cases.push(run_case(src, "for-each-line-structure"));
     }
+    for src in crate::props6::long_numeric_texts() {
+        cases.push(run_case(src, "long-numeric-texts"));
+    }
+    for src in crate::props6::long_text_family() {
+        cases.push(run_case(src, "long-texts"));
+    }
     let stats = run_cases(&ctx.driver, cases, &oracle, &no_known, ctx.threads);
     PropResult {
         stats,
-        rule: format!("every string of length <= {max} over {{a, b, blank, é, 中, 😀}} through all one-argument STRING procedures, LENGTH / FOR EACH / largest valid index consistency, a sample of patterns of length <= 2 for CONTAINS / STARTS_WITH / ENDS_WITH / SPLIT / JOIN / REPLACE with the law JOIN(SPLIT(s,p),p) = s evaluated in-language, SUBSTRING with start / length over {{-1, 0, 0.5, 1, 1.9, 2, LENGTH, LENGTH+1, NaN, inf}}; TO_NUMBER / TO_BOOL on 27 spellings; random Unicode strings incl. case-mapping specials (ß, İ, ǅ, ﬁ) and Unicode blanks; non-trivial = ended normally or with a runtime error; SPLIT called twice with the first result changed in between; fragments of number syntax; texts with LF / CR LF / lone CR / tabs through SPLIT / JOIN / REPLACE / CONTAINS / TRIM; JOIN over lists of length 0 .. 2 of every element kind with the result's type observed; texts with combining marks, emoji modifiers, flag sequences, joiners and variation selectors; FOR EACH over texts with CR LF / CR / LF"),
+        rule: format!("every string of length <= {max} over {{a, b, blank, é, 中, 😀}} through all one-argument STRING procedures, LENGTH / FOR EACH / largest valid index consistency, a sample of patterns of length <= 2 for CONTAINS / STARTS_WITH / ENDS_WITH / SPLIT / JOIN / REPLACE with the law JOIN(SPLIT(s,p),p) = s evaluated in-language, SUBSTRING with start / length over {{-1, 0, 0.5, 1, 1.9, 2, LENGTH, LENGTH+1, NaN, inf}}; TO_NUMBER / TO_BOOL on 27 spellings; random Unicode strings incl. case-mapping specials (ß, İ, ǅ, ﬁ) and Unicode blanks; non-trivial = ended normally or with a runtime error; SPLIT called twice with the first result changed in between; fragments of number syntax; texts with LF / CR LF / lone CR / tabs through SPLIT / JOIN / REPLACE / CONTAINS / TRIM; JOIN over lists of length 0 .. 2 of every element kind with the result's type observed; texts with combining marks, emoji modifiers, flag sequences, joiners and variation selectors; FOR EACH over texts with CR LF / CR / LF; numeric texts longer than any printed double; long texts"),
         exhaustive: false,
         notes: vec!["Σ (final-sigma rule of to_lowercase) is excluded from the alphabets: the model's TO_LOWER is context-free".into()],
     }
@@ -541,9 +551,18 @@ pub fn c15(ctx: &Ctx) -> PropResult {
     for (a, b) in [("5", "1"), ("0.5", "0.9"), ("-2.9", "2.9"), ("1", "1000000000"), ("NAN", "3"), ("-INF", "INF"), ("-1", "10000000000000000000"), ("-10000000000000000000", "10000000000000000000"), ("-INF", "0"), ("-10000000000000000000", "-9000000000000000000")] {
         cases.push(run_case(format!("{pre}r <- RANDOM({a}, {b})\nDISPLAY(r == r)\n"), "random-edge"));
     }
+    // (appended) both ends of the range are returned: 400 draws on ranges of every small width (powers of two and their
+    // neighbours); the model draws from its own choice list, so these are decided on the implementation alone
+    for (a, b) in [(0i64, 1i64), (1, 2), (1, 3), (1, 4), (1, 5), (1, 6), (-4, 4), (10, 26), (0, 7), (0, 8), (0, 9), (5, 5), (-1, 0), (0, 15), (0, 16), (0, 17)] {
+        let src = format!("ok <- TRUE\nlo <- FALSE\nhi <- FALSE\nREPEAT 400 TIMES {{\nr <- RANDOM({a}, {b})\nIF (NOT (r >= {a} AND r <= {b} AND r MOD 1 == 0)) {{\nok <- FALSE\n}}\nIF (r == {a}) {{\nlo <- TRUE\n}}\nIF (r == {b}) {{\nhi <- TRUE\n}}\n}}\nDISPLAY(ok)\nDISPLAY(lo)\nDISPLAY(hi)\n");
+        cases.push(run_case(src, "random-both-ends").tag("impl-only").aux(format!("{a},{b}")));
+    }
     let oracle = |case: &Case, out: &Outcome| -> Result<bool, String> {
         let nt = no_panic_oracle(case, out)?;
         if let Some(r) = &out.impl_run {
+            if case.tags.iter().any(|t| t == "random-both-ends") && r.output != "TRUE\nTRUE\nTRUE\n" {
+                return Err(format!("RANDOM({}) in 400 draws: in range / lower end seen / upper end seen = {:?}", case.aux, r.output));
+            }
             if case.tags.iter().any(|t| t == "random-range") && r.output.trim() != "TRUE" {
                 return Err(format!("RANDOM({}) left its range or returned a non-integer", case.aux));
             }
@@ -564,7 +583,7 @@ pub fn c15(ctx: &Ctx) -> PropResult {
     let stats = run_cases(&ctx.driver, cases, &oracle, &no_known, ctx.threads);
     PropResult {
         stats,
-        rule: "every MATH procedure of the live registry on 26 special values (zeros, domain boundaries, huge, inf, NaN) and random decimals; multi-argument procedures with asymmetric random arguments; random decimal literals (1-25 digits, with and without fraction) displayed, converted to text and back (TO_NUMBER of the text == the number, in-language), and combined arithmetically; RANDOM on all integer pairs a <= b in [-3,3] with repeated draws (range and integrality checked in-language on the implementation), edge ranges; compared with the model: output text exact (transcendental functions: both sides call the platform's libm); exact powers among the arguments; results of procedures libm has are compared exactly, ASINH / ACOSH / ATANH numerically; every multiple of 1/8 in [-50, 50] through every one-argument procedure".into(),
+        rule: "every MATH procedure of the live registry on 26 special values (zeros, domain boundaries, huge, inf, NaN) and random decimals; multi-argument procedures with asymmetric random arguments; random decimal literals (1-25 digits, with and without fraction) displayed, converted to text and back (TO_NUMBER of the text == the number, in-language), and combined arithmetically; RANDOM on all integer pairs a <= b in [-3,3] with repeated draws (range and integrality checked in-language on the implementation), edge ranges; compared with the model: output text exact (transcendental functions: both sides call the platform's libm); exact powers among the arguments; results of procedures libm has are compared exactly, ASINH / ACOSH / ATANH numerically; every multiple of 1/8 in [-50, 50] through every one-argument procedure; both ends of sixteen RANDOM ranges seen in 400 draws (implementation only)".into(),
         exhaustive: false,
         notes: vec![],
     }
